@@ -28,7 +28,8 @@ RULE = ("farmer kind in {Runner, Harvester, Sampler} x runner descriptions (1-3 
         "dimension given by var_coords or by a constant, resources, attrs) x grids / case sets x batch sizes x shuffle x "
         "to_df x overwrite policy x reload of the crop by name (same process; fresh OS process for a sample) between "
         "sow, grow and reap; plus Harvester crops whose harvester already holds identical / conflicting / overlapping data, "
-        "overwrite given or left at its default on both routes; distinct = distinct combinations; non-trivial = at least two batches")
+        "overwrite given or left at its default on both routes; plus crops re-sown in a folder left by an earlier sow "
+        "with another function (same process / fresh process); distinct = distinct combinations; non-trivial = at least two batches")
 
 RELOAD_SNIPPET = r'''
 import sys, os, json
@@ -278,14 +279,86 @@ def harvester_prior_case(c, tmp, idx):
     return rep, bad
 
 
+RESOW_SNIPPET = r'''
+import sys, os
+sys.path.insert(0, os.environ["XV_VERIF"])
+import xyzpy
+crop = xyzpy.Crop(name=sys.argv[1], parent_dir=sys.argv[2])
+crop.grow_missing(verbosity=0)
+out = crop.reap()
+import pickle
+pickle.dump(out, open(sys.argv[3], "wb"))
+'''
+
+
+def resow_case(c, tmp, idx):
+    """A crop folder left over from an earlier sow with ANOTHER function (nothing grown): the farmer is rebuilt
+    with the corrected function, its crop re-created and re-sown ("you can safely resow"), grown and reaped --
+    in this process or by a fresh process that only knows the crop's name.  The reap must be the direct run of
+    the CURRENT runner."""
+    import xyzpy
+    rng = c.rng
+    sw = R.Sweep(rng, with_cases=False, max_args=3, max_vals=3, kind=0, allow_consts=False)
+    nv = rng.randint(1, 2)
+    kind = 10 + nv
+    names = [f"v{j}" for j in range(nv)]
+    fn_args = tuple(sw.combo_args)
+    kind_f = rng.choice(["Runner", "Harvester"])
+    mode = rng.choice(["same-process", "fresh-process"])
+    d = os.path.join(tmp, f"r{idx}")
+    os.makedirs(d)
+    bs = rng.randint(1, max(1, sw.n_settings()))
+
+    def farmer(f):
+        r = xyzpy.Runner(functools.partial(f, sw.rank, kind, "plain"), tuple(names), fn_args=fn_args)
+        return r if kind_f == "Runner" else xyzpy.Harvester(r, data_name=os.path.join(d, "data"))
+    rep = {"stream": "resow-after-changing-the-function", "farmer": kind_f, "sweep": sw.describe(), "n_vars": nv,
+           "mode": mode, "batchsize": bs}
+    bad = []
+    try:
+        old = farmer(shifted_fn)
+        old.Crop(name="rc", parent_dir=d, batchsize=bs).sow_combos(dict(sw.combos), verbosity=0)
+        cur = farmer(c03.labelled_fn)
+        crop = cur.Crop(name="rc", parent_dir=d, batchsize=bs)
+        crop.sow_combos(dict(sw.combos), verbosity=0)
+        rep["batches"] = crop.num_batches
+        if mode == "fresh-process":
+            out = os.path.join(d, "out.pkl")
+            p = subprocess.run([sys.executable, "-W", "ignore", "-c", RESOW_SNIPPET, "rc", d, out],
+                               env=dict(os.environ, XV_VERIF=core.VERIF), capture_output=True, text=True, timeout=300)
+            if p.returncode != 0:
+                return rep, [("reloaded-process-failed", p.stderr[-300:])]
+            import pickle
+            reaped = pickle.load(open(out, "rb"))
+        else:
+            crop.grow_missing(verbosity=0)
+            reaped = crop.reap()
+        direct = xyzpy.Runner(functools.partial(c03.labelled_fn, sw.rank, kind, "plain"), tuple(names),
+                              fn_args=fn_args).run_combos(dict(sw.combos), verbosity=0)
+    except Exception as e:  # noqa
+        shutil.rmtree(d, ignore_errors=True)
+        return rep, [("farmer-crop-raised", f"{type(e).__name__}: {str(e)[:200]}")]
+    ok, why = ds_equal(direct, reaped)
+    if not ok:
+        bad.append(("resown-crop-differs-from-direct-run", why + " (a re-sown crop must run the farmer's current "
+                    "function)"))
+    if kind_f == "Harvester":
+        ok, why = ds_equal(direct, xyzpy.load_ds(os.path.join(d, "data")))
+        if not ok:
+            bad.append(("harvester-disk-differs", "after a re-sow: " + why))
+    shutil.rmtree(d, ignore_errors=True)
+    return rep, bad
+
+
 def run(tier, seed):
     c = core.Check("C06", tier, seed)
     gen_st = core.regen()
     b = core.build(PROP_FILE)
-    c.cov["translator"] = {k: v for k, v in gen_st.items() if k in ("GenFarmer",)}
+    c.cov["translator"] = {k: v for k, v in gen_st.items() if k in ("GenFarmer", "GenCrash")}
     c.cov["build"] = {"ok": b["ok"], "failed_file": b["failed_file"], "wall_s": round(b.get("wall_s", 0), 1)}
-    if "GenFarmer" in gen_st and not gen_st["GenFarmer"]["ok"]:
-        c.obligation_broken("translator GenFarmer", gen_st["GenFarmer"]["detail"])
+    for u in ("GenFarmer", "GenCrash"):
+        if u in gen_st and not gen_st[u]["ok"]:
+            c.obligation_broken(f"translator {u}", gen_st[u]["detail"])
     if not b["ok"]:
         c.obligation_broken(f"Coq build of {b['failed_file']}", b["log_tail"][-1200:])
     n = 150 if tier == "quick" else 1200
@@ -308,6 +381,13 @@ def run(tier, seed):
                    sample=rep if i % 10 == 0 else None)
             c.count("farmer", "Harvester/prior-data"); c.count("prior", rep["prior"]); c.count("overwrite", rep["overwrite"])
             c.count("prior_outcome", "raised" if rep["direct_raised"] else "merged")
+            for key, msg in bad:
+                c.violation(key, msg, rep)
+        for i in range(16 if tier == "quick" and not c.broken else 120):
+            rep, bad = resow_case(c, tmp, i)
+            c.case(json.dumps(rep, sort_keys=True, default=str), nontrivial=rep.get("batches", 0) >= 2,
+                   sample=rep if i % 8 == 0 else None)
+            c.count("farmer", rep["farmer"] + "/resow"); c.count("resow_mode", rep["mode"])
             for key, msg in bad:
                 c.violation(key, msg, rep)
     finally:
